@@ -348,60 +348,68 @@ impl<'a> EncodeParam<&'a [i32]> for PickyEncoder {
 /// True when the client itself has to refuse the call (nothing may be sent).
 pub fn client_refuses(ep: usize, args: &[ArgVal]) -> bool {
     let m = &ir().eps[ep];
-    m.service == "MacroOnly" && m.name == "segments" && picky_refuses(args[2].get::<Vec<i32>>())
+    m.service == "MacroOnly" && m.name == "segments" && picky_refuses(args[3].get::<Vec<i32>>())
 }
 
 /// exists only as macro traits: a multi-segment path parameter, a query key the macro has to escape,
 /// a query encoder that may refuse
 #[conjure_client(name = "MacroOnly")]
 pub trait MOnly {
-    #[endpoint(method = GET, path = "/mo/{head}/raw/{tail}", name = "segments", accept = ConjureResponseDeserializer)]
+    #[endpoint(method = GET, path = "/mo/{head}/n/{num}/raw/{tail}", name = "segments", accept = ConjureResponseDeserializer)]
     fn segments(
         &self,
         #[path] head: &str,
+        #[path] num: i32,
         #[path(encoder = DisplaySeqEncoder)] tail: &[String],
         #[query(name = "k&ey", encoder = PickyEncoder)] q: &[i32],
+        #[query(name = "o", encoder = DisplaySeqEncoder)] opt: Option<i32>,
     ) -> Result<String, Error>;
 }
 
 #[conjure_client(name = "MacroOnly")]
 pub trait MOnlyAsync {
-    #[endpoint(method = GET, path = "/mo/{head}/raw/{tail}", name = "segments", accept = ConjureResponseDeserializer)]
+    #[endpoint(method = GET, path = "/mo/{head}/n/{num}/raw/{tail}", name = "segments", accept = ConjureResponseDeserializer)]
     async fn segments(
         &self,
         #[path] head: &str,
+        #[path] num: i32,
         #[path(encoder = DisplaySeqEncoder)] tail: &[String],
         #[query(name = "k&ey", encoder = PickyEncoder)] q: &[i32],
+        #[query(name = "o", encoder = DisplaySeqEncoder)] opt: Option<i32>,
     ) -> Result<String, Error>;
 }
 
 #[conjure_endpoints(name = "MacroOnly")]
 pub trait MOnlySrv {
-    #[endpoint(method = GET, path = "/mo/{head}/raw/{tail}", name = "segments", produces = StdResponseSerializer)]
+    #[endpoint(method = GET, path = "/mo/{head}/n/{num}/raw/{tail}", name = "segments", produces = StdResponseSerializer)]
     fn segments(
         &self,
-        #[path] head: String,
+        #[path(name = "head", log_as = "headSegment")] head: String,
+        #[path(name = "num", log_as = "theNumber", decoder = FromStrDecoder)] num: i32,
         #[path(decoder = FromStrSeqDecoder<_>)] tail: Vec<String>,
         #[query(name = "k&ey", decoder = FromStrSeqDecoder<_>, log_as = "q")] q: Vec<i32>,
+        #[query(name = "o", decoder = FromStrOptionDecoder, log_as = "opt")] opt: Option<i32>,
     ) -> Result<String, Error>;
 }
 
 #[conjure_endpoints(name = "MacroOnly")]
 pub trait MOnlySrvAsync {
-    #[endpoint(method = GET, path = "/mo/{head}/raw/{tail}", name = "segments", produces = StdResponseSerializer)]
+    #[endpoint(method = GET, path = "/mo/{head}/n/{num}/raw/{tail}", name = "segments", produces = StdResponseSerializer)]
     async fn segments(
         &self,
-        #[path] head: String,
+        #[path(name = "head", log_as = "headSegment")] head: String,
+        #[path(name = "num", log_as = "theNumber", decoder = FromStrDecoder)] num: i32,
         #[path(decoder = FromStrSeqDecoder<_>)] tail: Vec<String>,
         #[query(name = "k&ey", decoder = FromStrSeqDecoder<_>, log_as = "q")] q: Vec<i32>,
+        #[query(name = "o", decoder = FromStrOptionDecoder, log_as = "opt")] opt: Option<i32>,
     ) -> Result<String, Error>;
 }
 
 macro_rules! only_handler_impl {
     ($trait_:ident, $($async_:ident)?) => {
         impl $trait_ for Handler {
-            $($async_)? fn segments(&self, head: String, tail: Vec<String>, q: Vec<i32>) -> Result<String, Error> {
-                crate::glue::take_ret::<String>(self.enter(idx("MacroOnly", "segments"), vec![("head", bx(head)), ("tail", bx(tail)), ("q", bx(q))], None)?)
+            $($async_)? fn segments(&self, head: String, num: i32, tail: Vec<String>, q: Vec<i32>, opt: Option<i32>) -> Result<String, Error> {
+                crate::glue::take_ret::<String>(self.enter(idx("MacroOnly", "segments"), vec![("headSegment", bx(head)), ("theNumber", bx(num)), ("tail", bx(tail)), ("q", bx(q)), ("opt", bx(opt))], None)?)
             }
         }
     };
@@ -432,7 +440,9 @@ pub fn gen_args(ep: usize, t: &mut crate::tape::Tape, g: &crate::glue::GenKnobs)
         tail.push(<String as Gen>::gen(t, &g.at(Kind::Path, false)));
     }
     let q = <Vec<i32> as Gen>::gen(t, &g.at(Kind::Query, false));
-    vec![ArgVal::new("head", bx(head)), ArgVal::new("tail", bx(tail)), ArgVal::new("q", bx(q))]
+    let opt = <Option<i32> as Gen>::gen(t, &g.at(Kind::Query, false));
+    let num = <i32 as Gen>::gen(t, &g.at(Kind::Path, false));
+    vec![ArgVal::new("headSegment", bx(head)), ArgVal::new("theNumber", bx(num)), ArgVal::new("tail", bx(tail)), ArgVal::new("q", bx(q)), ArgVal::new("opt", bx(opt))]
 }
 
 pub fn gen_ret(ep: usize, t: &mut crate::tape::Tape, g: &crate::glue::GenKnobs) -> Box<dyn DynVal> {
@@ -582,7 +592,7 @@ pub fn call_blocking(tr: &SimTransport, kind: ClientKind, ep: usize, args: &[Arg
         (ClientKind::Macro, "ReturnService", "retOptString") => MRetClient::new(tr.clone()).ret_opt_string().map(bx),
         (ClientKind::Macro, "ReturnService", "retList") => MRetClient::new(tr.clone()).ret_list().map(bx),
         (ClientKind::Macro, "BodyService", "bodyNode") => MBodyClient::new(tr.clone()).body_node(args[0].get()).map(bx),
-        (_, "MacroOnly", "segments") => MOnlyClient::new(tr.clone()).segments(args[0].get::<String>(), args[1].get::<Vec<String>>(), args[2].get::<Vec<i32>>()).map(bx),
+        (_, "MacroOnly", "segments") => MOnlyClient::new(tr.clone()).segments(args[0].get::<String>(), *args[1].get::<i32>(), args[2].get::<Vec<String>>(), args[3].get::<Vec<i32>>(), *args[4].get::<Option<i32>>()).map(bx),
         (ClientKind::Smile, "ReturnService", "retNode") => SRetClient::new(tr.clone()).ret_node().map(bx),
         (ClientKind::Smile, "ReturnService", "retKeys") => SRetClient::new(tr.clone()).ret_keys().map(bx),
         (ClientKind::Smile, "ReturnService", "retDouble") => SRetClient::new(tr.clone()).ret_double().map(bx),
@@ -611,7 +621,7 @@ pub async fn call_async(tr: &SimTransport, kind: ClientKind, ep: usize, args: &[
         (ClientKind::Macro, "ReturnService", "retOptString") => MRetAsyncClient::new(tr.clone()).ret_opt_string().await.map(bx),
         (ClientKind::Macro, "ReturnService", "retList") => MRetAsyncClient::new(tr.clone()).ret_list().await.map(bx),
         (ClientKind::Macro, "BodyService", "bodyNode") => MBodyAsyncClient::new(tr.clone()).body_node(args[0].get()).await.map(bx),
-        (_, "MacroOnly", "segments") => MOnlyAsyncClient::new(tr.clone()).segments(args[0].get::<String>(), args[1].get::<Vec<String>>(), args[2].get::<Vec<i32>>()).await.map(bx),
+        (_, "MacroOnly", "segments") => MOnlyAsyncClient::new(tr.clone()).segments(args[0].get::<String>(), *args[1].get::<i32>(), args[2].get::<Vec<String>>(), args[3].get::<Vec<i32>>(), *args[4].get::<Option<i32>>()).await.map(bx),
         (ClientKind::Smile, "ReturnService", "retNode") => SRetAsyncClient::new(tr.clone()).ret_node().await.map(bx),
         (ClientKind::Smile, "ReturnService", "retKeys") => SRetAsyncClient::new(tr.clone()).ret_keys().await.map(bx),
         (ClientKind::Smile, "ReturnService", "retDouble") => SRetAsyncClient::new(tr.clone()).ret_double().await.map(bx),
